@@ -204,3 +204,132 @@ def ob_division_kept(r, tier, seed, depth):
 _c10_obl2 = obligations
 def obligations():
     return _c10_obl2() + [Ob('O10.7-division-kept', 'dead-code elimination never judges an integer division by a possibly-zero divisor removable (any integer type)', ob_division_kept, ('quick', 'thorough'), 2, dict(depth=1))]
+
+# ----------------------------------------------------------------------------- O10.8 an integer literal *pattern* keeps its value and gets the type of the matched value
+INT_T = {'TInt8': ('Int8', 2**7 - 1), 'TInt16': ('Int16', 2**15 - 1), 'TInt32': ('Int32', 2**31 - 1), 'TInt64': ('Int64', 2**63 - 1),
+         'TUint8': ('UInt8', 2**8 - 1), 'TUint16': ('UInt16', 2**16 - 1), 'TUint32': ('UInt32', 2**32 - 1), 'TUint64': ('UInt64', 2**64 - 1)}
+def ob_int_pattern(r, tier, seed):
+    import subprocess, tempfile, shutil, os
+    W = e2.fresh_world(('compiler', 'common_defs', 'diagnostics', 'parser')); tt = W.tt
+    TY = tt.find_adt(['tast', 'Ty'], 'compiler'); HP = [a for a in tt.by_name['Pat'] if a.crate == 'compiler' and 'hir' in '::'.join(a.path)][0]
+    TP = tt.find_adt(['tast', 'Pat'], 'compiler'); PR = tt.find_adt(['common', 'Prim'], 'compiler')
+    lits = ['7', '200', '40000', '3000000000', '10000000000']
+    r.bounds = 'unsuffixed integer literal patterns %s against a matched value of each of the eight integer types, for every combination in which the literal fits the type (the typer rejects the others)' % lits
+    r.assumptions = ['HirTable::pat returns the chosen pattern, TypeckResults::pat_ty the type the typer recorded for it (the type of the matched value; see O3.4)',
+                     'oracle: typer::tast_builder::build_pat yields PPrim { value: Prim::<T> { the written value }, ty: T }']
+    cur = {}
+    for nm in list(W.methods.get('pat', [])):
+        if nm[2] is not None and nm[2].self_key == 'HirTable': W.stubs[nm[1]] = lambda ex, a: Ref(cur, 'pat')
+    for nm in list(W.methods.get('pat_ty', [])):
+        if nm[2] is not None and nm[2].self_key == 'TypeckResults': W.stubs[nm[1]] = lambda ex, a: ms.some(Ref(cur, 'ty'))
+    def entry(ex):
+        lit = ex.choose([(True, l) for l in lits]); t = ex.choose([(True, x) for x in sorted(INT_T)])
+        if int(lit) > INT_T[t][1]: return None
+        cur['pat'] = Agg(HP.key, HP.vindex('PInt'), [mkstr(lit)]); cur['ty'] = Agg(TY.key, TY.vindex(t), [])
+        h = {0: Opaque('hir_table'), 1: Opaque('results')}
+        out = ex.call('typer::tast_builder::build_pat', [Ref(h, 0), Ref(h, 1), Agg('PatId', 0, [0])])
+        f = dict(zip([x[0] for x in TP.variants[out.idx].fields], out.fields))
+        pv = f['value']
+        return lit, t, TP.variants[out.idx].name, PR.variants[pv.idx].name, pv.fields[0], TY.variants[f['ty'].idx].name
+    res = e2.explore(r, W, entry, [])
+    found = {}
+    for p in res:
+        r.cases += 1
+        if p.kind != 'ok': found.setdefault('panic', ('build_pat panics: %s' % p.value, None)); continue
+        if p.value is None: continue
+        lit, t, pk, prim, val, ty = p.value
+        r.nontrivial += 1
+        if pk != 'PPrim' or ty != t or prim != INT_T[t][0] or ms.is_sym(val) or int(val) != int(lit):
+            key = 'int-pattern-prim-mismatch' if prim != INT_T[t][0] else 'int-pattern-value-changed'
+            found.setdefault(key, ('pattern `%s` against a value of type %s is built as %s { value: Prim::%s(%s), ty: %s }' % (lit, t[1:].lower(), pk, prim, val, ty), (lit, t)))
+        elif len(r.samples) < 3: r.samples.append({'literal': lit, 'type': t, 'prim': prim})
+    for key, (what, w) in found.items():
+        ok_, detail = True, 'value built by the real tast_builder::build_pat MIR'
+        if w is not None:
+            lit, t = w
+            src = 'fn f(x: %s) -> int32 { match x { %s => 1, _ => 2 } }\nfn main() -> unit { () }\n' % (t[1:].lower(), lit)
+            d = tempfile.mkdtemp(prefix='vf-c10-')
+            try:
+                open(os.path.join(d, 'main.gom'), 'w').write(src)
+                p_ = subprocess.run([build.compiler_bin(), 'run', '--dump-go', os.path.join(d, 'main.gom')], capture_output=True, text=True, timeout=60)
+            finally: shutil.rmtree(d, ignore_errors=True)
+            txt = p_.stdout + p_.stderr
+            body = txt[txt.find('func f('):]; body = body[:body.find('\n}\n') + 3]
+            ok_ = 'panicked' in txt or ('case %s:' % lit) not in body
+            detail = 'goml `%s`: %s' % (src.replace('\n', ' | '), ([l for l in txt.splitlines() if 'panicked' in l] + txt.splitlines()[-1:])[0][:200] if 'panicked' in txt else body[:200].replace('\n', ' | '))
+        r.findings.append(Finding(key, what, {'literal': w[0] if w else None, 'type': w[1] if w else None}, ok_, detail))
+_c10_obl3 = obligations
+def obligations():
+    return _c10_obl3() + [Ob('O10.8-int-literal-patterns', 'an unsuffixed integer pattern is built at the type of the matched value with its written value', ob_int_pattern, ('quick', 'thorough'), 2, {})]
+
+# ----------------------------------------------------------------------------- O10.9 a float literal is printed as a Go *floating-point* constant
+def rust_f64_display(x):
+    """Rust's `Display` for a finite f64: shortest digits that round-trip, positional notation, no trailing `.0`"""
+    from decimal import Decimal
+    if x != x: return 'NaN'
+    if x in (float('inf'), float('-inf')): return 'inf' if x > 0 else '-inf'
+    s = format(Decimal(repr(x)), 'f')
+    if '.' in s: s = s.rstrip('0').rstrip('.')
+    return s if s not in ('-0', '') else ('-0' if str(x).startswith('-') else '0')
+
+def ob_float_literal_text(r, tier, seed):
+    import subprocess, tempfile, shutil, os
+    W = e2.fresh_world(('compiler', 'common_defs', 'diagnostics')); tt = W.tt
+    GE = tt.find_adt(['goast', 'Expr'], 'compiler'); GT = tt.find_adt(['goty', 'GoType'], 'compiler')
+    vals = [1.0, 2.0, 0.5, 3.0, 100.0, 1e21, 1.5e300, 0.1, 16777216.0, -4.0]
+    r.bounds = 'Go float literal nodes with the values %s at float32 and float64; goast::Expr::to_doc executed up to the document it builds for the literal' % vals
+    r.assumptions = ['the `pretty` crate is external: RcDoc::as_string(v) is modelled as the text of Rust\'s Display for v (shortest round-trip digits, positional notation), RcDoc::text(s) as s',
+                     'oracle (Go spec, constant expressions): a literal without `.`, exponent or conversion is an *integer* constant - `1 / 2` is 0 - so the printed text of a float literal must contain `.` or an exponent']
+    def ov(f, g):
+        if g.endswith('RcDoc::as_string') or 'RcDoc::<' in g and g.endswith('::as_string') or g.endswith('::as_string'):
+            def m_as_string(ex, f_, a):
+                v = a[0]
+                while isinstance(v, Ref): v = v.get()
+                if isinstance(v, float): return Opaque('doc', text=rust_f64_display(v))
+                if isinstance(v, Str): return Opaque('doc', text=ms.pystr(v))
+                raise Unsupported('as_string of %r' % (v,))
+            return m_as_string
+        if g.endswith('<f64 as ToString>::to_string') or g.endswith('f64 as std::string::ToString>::to_string'):
+            def m_f64_to_string(ex, f_, a):
+                v = a[0]
+                while isinstance(v, Ref): v = v.get()
+                if not isinstance(v, float): raise Unsupported('to_string of a symbolic f64')
+                return mkstr(rust_f64_display(v))
+            return m_f64_to_string
+        if g.endswith('RcDoc::text') or g.endswith('::text'):
+            def m_text(ex, f_, a):
+                v = ex.deref(a[0]) if not isinstance(a[0], Str) else a[0]
+                return Opaque('doc', text=ms.pystr(v))
+            return m_text
+        return None
+    W.overrides = [ov]
+    def entry(ex):
+        v = ex.choose([(True, x) for x in vals]); t = ex.choose([(True, 'TFloat64'), (True, 'TFloat32')])
+        h = {0: Agg(GE.key, GE.vindex('Float'), [float(v), Agg(GT.key, GT.vindex(t), [])]), 1: Opaque('goenv')}
+        d = ex.call('<goast::Expr>::to_doc', [Ref(h, 0), Ref(h, 1)]) if False else ex.call('go_pprint::<impl Expr>::to_doc', [Ref(h, 0), Ref(h, 1)])
+        return v, t, getattr(d, 'text', None)
+    res = e2.explore(r, W, entry, [])
+    bad = None
+    for p in res:
+        r.cases += 1
+        if p.kind != 'ok': raise Unsupported('to_doc panicked: %s' % p.value)
+        v, t, text = p.value
+        r.nontrivial += 1
+        if text is None: raise Unsupported('no text for the float literal document')
+        if not any(c in text for c in '.eE') and bad is None: bad = (v, t, text)
+        elif len(r.samples) < 3: r.samples.append({'value': v, 'text': text})
+    if bad:
+        v, t, text = bad
+        src = 'fn main() -> unit { let x: float64 = 1.0 / 2.0; string_println(float64_to_string(x)) }\n'
+        d = tempfile.mkdtemp(prefix='vf-c10-')
+        try:
+            open(os.path.join(d, 'main.gom'), 'w').write(src)
+            p_ = subprocess.run([build.compiler_bin(), 'run', '--dump-go', os.path.join(d, 'main.gom')], capture_output=True, text=True, timeout=60)
+        finally: shutil.rmtree(d, ignore_errors=True)
+        line = [l.strip() for l in p_.stdout.splitlines() if 'float64 =' in l]
+        ok_ = bool(line) and re.search(r'= 1 / 2\b', line[0]) is not None
+        r.findings.append(Finding('float-literal-printed-as-integer-constant', 'the float literal %r (%s) is printed as `%s`, which Go reads as an integer constant' % (v, t, text), {'value': v, 'text': text}, ok_,
+                                  'goml `let x: float64 = 1.0 / 2.0` emits `%s` (an integer constant division: 0)' % (line[0] if line else p_.stdout[-200:])))
+_c10_obl4 = obligations
+def obligations():
+    return _c10_obl4() + [Ob('O10.9-float-literal-text', 'a float literal is printed as a Go floating-point constant', ob_float_literal_text, ('quick', 'thorough'), 2, {})]
